@@ -938,6 +938,50 @@ def bl(v):
     return 'true' if v else 'false'
 
 
+def depth_edges(repo):
+    """every place where the evaluator re-enters op_t::calc / op_t::compile or builds the call scope
+    through which arguments are evaluated later: does it hand the recursion depth on?
+    -> list of (label, propagates).  Sites: calls `x->calc(a, b[, c])` / `x.calc(a, b[, c])` with two
+    or more arguments (the one-argument form is expr_t::calc, a fresh top-level evaluation),
+    `->compile(a, b..)` in op.cc, the helpers calc_call / calc_cons / calc_seq / call_lambda /
+    find_definition, and every `call_scope_t NAME(a, b[, c])` with two or more arguments."""
+    src = os.path.join(repo, 'src')
+    out = []
+    for path in sorted(glob.glob(os.path.join(src, '*.cc')) + glob.glob(os.path.join(src, '*.h'))):
+        f = os.path.basename(path)
+        if f.startswith('py'):
+            continue
+        t = strip_comments(open(path, errors='replace').read())
+        sites = []
+        for m in re.finditer(r'(?:->|\.)\s*(calc|compile)\s*\(', t):
+            sites.append((m.start(), m.end() - 1, m.group(1)))
+        if f == 'op.cc':
+            for m in re.finditer(r'(?<![\w:>.])(calc_call|calc_cons|calc_seq|call_lambda|find_definition)\s*\(', t):
+                # skip the definitions themselves (`value_t expr_t::op_t::calc_call(scope_t& ...`)
+                if re.search(r'(::|value_t|ptr_op_t)\s*$', t[max(0, m.start() - 12):m.start()]):
+                    continue
+                sites.append((m.start(), m.end() - 1, m.group(1)))
+        for m in re.finditer(r'\bcall_scope_t\s+\w+\s*\(', t):
+            sites.append((m.start(), m.end() - 1, 'call_scope_t'))
+        count = {}
+        for start, paren, kind in sorted(sites):
+            end = match_brace(t, paren)
+            args = [a.strip() for a in split_args(t[paren + 1:end - 1])]
+            if kind in ('calc', 'compile', 'call_scope_t') and len(args) < 2:
+                continue                     # expr_t::calc(scope) / call_scope_t args(scope): a top-level entry
+            if kind == 'compile' and f != 'op.cc':
+                continue
+            if kind in ('calc', 'compile') and not re.search(r'scope', args[0]):
+                continue                     # some other calc()
+            fn = outermost_function(t, start)
+            label_fn = fn[0].split('::')[-1] if fn else '?'
+            key = (f, label_fn, kind)
+            count[key] = count.get(key, 0) + 1
+            ok = any(re.search(r'\bdepth\b', a) for a in (args[2:] if kind in ('calc', 'call_scope_t') else args[1:]))
+            out.append(('%s:%s:%s#%d' % (f, label_fn, kind, count[key]), ok))
+    return out
+
+
 def report_functions(repo):
     """names of the value-expression functions report_t::lookup answers to (report.cc)"""
     t = strip_comments(open(os.path.join(repo, 'src', 'report.cc'), errors='replace').read())
@@ -978,6 +1022,7 @@ def generate(repo):
     lines.append('].')
     lines.append('')
     text = '\n'.join(lines)
+    edges = depth_edges(repo)
     gl = ['(* GENERATED by harness/translators/c11_buffers.py from /repo/src - do not edit. *)',
           'From Coq Require Import ZArith.',
           'Local Open Scope Z_scope.',
@@ -1034,7 +1079,18 @@ def generate(repo):
           '(* utils.h: READ_INTO / READ_INTO_ are textually the loops transcribed in Model/Buffers.v *)',
           'Definition src_read_into_as_modelled : bool := %s.' % ('true' if flags['read_into_ok'] else 'false'),
           '']
-    return {'BufferSites.v': text, 'SafetyGuards.v': '\n'.join(gl)}
+    el = ['(* GENERATED by harness/translators/c11_buffers.py from /repo/src - do not edit.',
+          '   Every site where the evaluator re-enters op_t::calc / compile, or builds the call scope its',
+          '   arguments are evaluated through: true = the recursion depth is handed on. *)',
+          'From Coq Require Import List String.',
+          'Import ListNotations.',
+          'Local Open Scope string_scope.',
+          'Definition src_depth_edges : list (string * bool) := [']
+    for i, (lab, ok) in enumerate(edges):
+        el.append('  (%s, %s)%s' % (coq_string(lab), 'true' if ok else 'false', ';' if i + 1 < len(edges) else ''))
+    el.append('].')
+    el.append('')
+    return {'BufferSites.v': text, 'SafetyGuards.v': '\n'.join(gl), 'DepthEdges.v': '\n'.join(el)}
 
 
 if __name__ == '__main__':
